@@ -111,7 +111,7 @@ def make(ep):
         regs = {str(v): v for v in ts.state.values()}
         for rn, st_name in (("status_sent", "SET_ADDRESS"), ("status_sent$2", "SET_CONFIGURATION"),
                             ("clear_feature_status_sent", "CLEAR_FEATURE")):
-            if "StandardRequestHandler." + rn in regs:
+            if ts.has_reg("StandardRequestHandler." + rn):
                 c.inv(f"{rn}_only_after_status_stage".replace("$", "_"),
                       z3.Implies(regs["StandardRequestHandler." + rn] == 1,
                                  z3.And(env.answered == 1, current, std, h.is_(st_name),
